@@ -769,6 +769,22 @@ def mk_fn(name, args, kwargs=()):
         a = args[0].single_atom()
         if a is not None and a[0] == "fn" and a[1] in ("eq", "ne") and not a[3] and args[0] == Form.atom(a):
             return Form.atom(("fn", "ne" if a[1] == "eq" else "eq", a[2], ()))
+    if name in ("or", "and") and not kwargs and len(args) >= 2:
+        # x or True = True, x and False = False (value semantics of a decided operand; the other operands have no side effects here);
+        # a decided neutral operand (False in `or`, True in `and`) is dropped
+        absorb, neutral = (True, False) if name == "or" else (False, True)
+        if any(isinstance(a, Const) and a.v is absorb for a in args):
+            return Const(absorb)
+        kept = [a for a in args if not (isinstance(a, Const) and a.v is neutral)]
+        if len(kept) == 1:
+            return kept[0]
+        if not kept:
+            return Const(neutral)
+        args = kept
+    if name == "ifexp" and len(args) == 3 and not kwargs and isinstance(args[0], Const) and isinstance(args[0].v, bool):
+        return args[1] if args[0].v else args[2]
+    if name in ("min", "max") and not kwargs and len(args) == 2 and vkey(args[0]) == vkey(args[1]):
+        return args[0]
     if name == "abs" and len(args) == 1 and not kwargs and isinstance(args[0], Form) and args[0].rational() is not None:
         return Form.num(abs(args[0].rational()))
     if name in _INT_FOLD and len(args) == 2 and not kwargs and all(isinstance(a, Form) for a in args):
